@@ -599,6 +599,11 @@ class History:
                     r["st"] = tuple(st)
                     recs[i] = r
             new = ser_cache(recs)
+        # the manipulated file must stay truthful: no record may carry a digest that contradicts
+        # what is already known about its (name, stat data) in this history
+        for r in parse_cache(new) or []:
+            if self.known.get(key_of(r["name"], r["st"]), r["digest"]) != r["digest"]:
+                return False
         tmp = self.cache + ".h~"
         with open(tmp, "wb") as f:
             f.write(new)
@@ -898,11 +903,20 @@ def run(ctx):
         "branches that hash as empty) are not modelled (the harness runs as root, nothing is unreadable)",
         "st_ctime_ns/st_mtime_ns < 2^63, st_mode/st_rdev < 2^32, path length < 2^16 (otherwise struct.error in the "
         "implementation); little-endian host ('=L' is modelled as little endian; HOST_LITTLE_ENDIAN is regenerated)",
-        "hashFile's 16 KiB chunking, NamedTemporaryFile+rename of cache.bin (atomic replace) and concurrent modification of "
-        "the tree during hashing are not modelled",
+        "hashFile's 16 KiB chunking, NamedTemporaryFile+rename of cache.bin (atomic replace), the size sum of "
+        "hashDirectoryWithSize, hashPath, and concurrent modification of the tree during hashing are not modelled",
         "ignored names: IGNORE_DIRS/IGNORE_FILES are regenerated from utils.py into Gen/ConstsC11.v; the independent oracle "
         "uses its own copy (.git .svn .portage-cache directories, BaseDirList.txt files)",
     ]
+    ctx.note("proved (unbounded, about the Gallina model): hash_dir_canon + canon_order_irrelevant (hash is a function of the "
+             "canonical tree), hash_dir_injective (equal hashes => equal canonical trees or an exhibited SHA-1 collision among the "
+             "hashed blobs; incl. unique decodability of the separator-free directory blob), dfs_order_sorted (index look-ups in "
+             "strictly increasing byte order), cache_transparent (ANY truthful cache file), cache_file_truthful + "
+             "cache_transparent_history (all histories, incl. the byte level write/read-back of cache.bin), "
+             "index_sorted_preserved.  Only exercised by the correspondence (not proved): that the model is what utils.py does "
+             "(walk, ignore lists, sort, blob layout, merge walk, prefix copy, file format), hit rates (an unchanged tree is "
+             "all hits: counted as cached:all-hit), ignoreDirs, records surviving a rewrite (false in general, see "
+             "index_keeps_valid_records_refuted)")
     if ctx.replay:
         return replay(ctx)
     worker = Worker()
@@ -918,17 +932,14 @@ def run_with(ctx, worker):
     if not os.path.realpath(where).startswith(os.path.realpath(core.REPO)):
         ctx.tie_broken("wrong-implementation", "worker imported bob.utils from %s, expected below %s" % (where, core.REPO))
         return
-    n_hist = ctx.n(170, 2500)
+    n_hist = int(os.environ.get("BOBV_C11_HISTORIES", ctx.n(120, 1200)))   # env override only for calibration
     max_steps = ctx.n(9, 16)
-    cases = []
-    meta = []
     seen_reads = [False]
     pending = []       # (obs, ignore, meta)
 
-    def record(hist_id, steps_so_far, ignore):
+    def record(hist_id, steps, ignore):
         def on_obs(si, o, h):
             ctx.evaluated(2)
-            hits = 0
             reads = sum(1 for k, v in o["cev"] if k == "r")
             nfiles = sum(1 for _ in walk_files(o["snap"]))
             if reads:
@@ -942,7 +953,10 @@ def run_with(ctx, worker):
                 ctx.count("op:" + op["op"] + (":" + op["field"] if op["op"] == "ix_forge" else ""))
             if ixop or (o["old"] is not None and 0 < reads < nfiles_checked(o)):
                 ctx.nontrivial((tuple(v for k, v in o["cev"]), o["old"]))
-            pending.append((o, ignore, {"history": hist_id, "step": si}))
+            pending.append((o, ignore, {"history": hist_id, "step": si, "steps": steps}))
+            if len(pending) >= 3000:      # bound the memory of long runs
+                compare_with_model(ctx, pending, seen_reads[0])
+                del pending[:]
         return on_obs
 
     def nfiles_checked(o):
@@ -960,8 +974,6 @@ def run_with(ctx, worker):
         rec(o["snap"])
         return n
 
-    all_histories = []
-
     def report(fails, steps, ignore, hid):
         seen = set()
         for sigclass, detail, si in fails:
@@ -976,7 +988,7 @@ def run_with(ctx, worker):
 
     # ---- corpus first
     for c in load_corpus():
-        fails, obs, forced = run_history(worker, c["steps"], c.get("ignore"), record("corpus:" + c["_file"], None, c.get("ignore")))
+        fails, obs, forced = run_history(worker, c["steps"], c.get("ignore"), record("corpus:" + c["_file"], c["steps"], c.get("ignore")))
         ctx.count("history:corpus")
         ctx.count("forced-stat-change", forced)
         if fails:
@@ -988,7 +1000,7 @@ def run_with(ctx, worker):
         steps = [gen_initial(rng)]
         # an empty step now and then: nothing changed, everything must hit
         gen = lambda snap, hl: [] if rng.random() < 0.08 else gen_step(rng, snap, hl)
-        fails, obs, forced = run_history(worker, steps, ignore, record(hi, None, ignore), gen=gen,
+        fails, obs, forced = run_history(worker, steps, ignore, record(hi, steps, ignore), gen=gen,
                                          nsteps=rng.randint(3, max_steps), count=ctx.count)
         ctx.count("forced-stat-change", forced)
         ctx.count("history:generated")
@@ -1003,20 +1015,32 @@ def run_with(ctx, worker):
     copy_checks(ctx, worker, rng, ctx.n(25, 300))
 
     # ---- model side
+    compare_with_model(ctx, pending, seen_reads[0])
+
+
+def compare_with_model(ctx, pending, with_reads):
+    """pending: [(observation, ignore, meta)]; evaluates the Coq model on every observation"""
     t_impl = ctx.elapsed()
-    with_reads = seen_reads[0]
     if not with_reads:
         ctx.note("no file reads were observed in the worker (open/os.readlink wrappers blind): only SHA-1 input sequences compared")
+    cases = []
+    meta = []
     for o, ignore, m in pending:
         if o["cd"] is None or o["ud"] is None:
             continue
         cases.append(make_case(o, ignore, with_reads))
-        meta.append(m)
-    bad, log = coq.run_cases(ctx, ["BobV.C11.Model"], "(fun i => i)", "case_ok", cases, preamble=PREAMBLE, tag="c11",
-                             shard=max(40, (len(cases) + 5) // 6))
-    if bad is None:
-        ctx.tie_broken("C11 model evaluation failed", log)
-        return
+        meta.append((o, ignore, m))
+    bad = []
+    # at most 5 coqc processes at a time: batches of 5 shards
+    per_shard = max(40, min(500, (len(cases) + 4) // 5))
+    batch = 5 * per_shard
+    for b0 in range(0, len(cases), batch):
+        r, log = coq.run_cases(ctx, ["BobV.C11.Model"], "(fun i => i)", "case_ok", cases[b0:b0 + batch], preamble=PREAMBLE,
+                               tag="c11", shard=per_shard, timeout=1800)
+        if r is None:
+            ctx.tie_broken("C11 model evaluation failed", log)
+            return
+        bad.extend(b0 + i for i in r)
     ctx.validated(len(cases) - len(bad))
     ctx.note("timing: implementation side done after %.1fs, model evaluation of %d cases (%d kB of Coq) took %.1fs" % (
         t_impl, len(cases), sum(len(a) + len(b) for a, b in cases) // 1024, ctx.elapsed() - t_impl))
@@ -1028,11 +1052,14 @@ def run_with(ctx, worker):
             if res:
                 flags = [x.strip() for x in res[0].strip("[] \n").split(";")]
                 which = [VERDICT_NAMES[j] for j, fl in enumerate(flags) if fl != "true" and j < len(VERDICT_NAMES)]
-            o = pending[i][0]
-            ctx.tie_broken("model-correspondence", {"differs_in": which, "where": meta[i], "applied": o["applied"],
-                                                    "tree": jsonable_snap(o["snap"]),
-                                                    "old_cache": binascii.hexlify(o["old"]).decode() if o["old"] else None,
-                                                    "new_cache": binascii.hexlify(o["new"]).decode() if o["new"] else None})
+            o, ignore, m = meta[i]
+            steps = m.get("steps")
+            ctx.tie_broken("model-correspondence", {
+                "differs_in": which, "history": m.get("history"), "step": m.get("step"), "applied": o["applied"],
+                "steps": [list(x) for x in steps[:m["step"] + 1]] if steps is not None else None, "ignore": ignore,
+                "tree": jsonable_snap(o["snap"]),
+                "old_cache": binascii.hexlify(o["old"]).decode() if o["old"] else None,
+                "new_cache": binascii.hexlify(o["new"]).decode() if o["new"] else None})
 
 
 def rebuild(dst, entries, rng):
@@ -1128,12 +1155,25 @@ def replay(ctx):
     with open(ctx.replay) as f:
         d = json.load(f)
     c = d.get("case", d)
+    if "steps" not in c:
+        for b in d.get("broken", []):
+            det = b.get("detail")
+            if isinstance(det, dict) and det.get("steps"):
+                c = det
+                break
+    if not c.get("steps"):
+        print("replay file has no history: nothing to execute")
+        return
     worker = Worker()
     try:
-        if "steps" not in c:
-            print("replay file has no history (broken-tie record?): nothing to execute")
-            return
-        fails, obs, forced = run_history(worker, c["steps"], c.get("ignore"))
+        pending = []
+        reads = [False]
+
+        def on_obs(si, o, h):
+            if any(k == "r" for k, v in o["cev"] + o["uev"]):
+                reads[0] = True
+            pending.append((o, c.get("ignore"), {"history": "replay", "step": si, "steps": c["steps"]}))
+        fails, obs, forced = run_history(worker, c["steps"], c.get("ignore"), on_obs)
         ctx.evaluated(2 * len(obs))
         for si, o in enumerate(obs):
             print("step %d: %s\n   cached=%s uncached=%s" % (si, json.dumps(o["applied"]), binascii.hexlify(o["cd"] or b"").decode(),
@@ -1141,5 +1181,8 @@ def replay(ctx):
         for sigclass, detail, si in fails:
             print("FAIL", sigclass, detail)
             ctx.violation(sigclass + ":" + op_kinds(c["steps"]), detail, c)
+        compare_with_model(ctx, pending, reads[0])
+        for t in ctx.ties_broken:
+            print("MODEL/IMPLEMENTATION DIFFER:", t["name"], (t["detail"] or {}).get("differs_in") if isinstance(t["detail"], dict) else "")
     finally:
         worker.close()
